@@ -296,11 +296,11 @@ func checkC16(c *Ctx, r *Report) {
 		}
 		ge := func(x func(ssa.Value) bool, limit string) EdgePred {
 			return edgeCmp(func(b *ssa.BinOp) bool {
-				return b.Op == token.GEQ && x(strip2(b.X)) && isLoadOfField(rlT + "." + limit)(strip2(b.Y))
+				return b.Op == token.GEQ && x(strip2(b.X)) && isLoadOfField(rlT+"."+limit)(strip2(b.Y))
 			}, false)
 		}
 		inProg := func(v ssa.Value) bool {
-			return derivesFrom(v, isLoadOfField(rlT+".inProgressReqs")) && !isLoadOfField(rlT + ".inProgressReqs")(v)
+			return derivesFrom(v, isLoadOfField(rlT+".inProgressReqs")) && !isLoadOfField(rlT+".inProgressReqs")(v)
 		}
 		r5.guard(acc, "state update", writes, "!closed", edgeBool(isLoadOfField(rlT+".closed"), false), nil)
 		r5.guard(acc, "state update", writes, "inProgressReqs[p] < MaxConcurrentRequestsPerPeer", ge(inProg, "MaxConcurrentRequestsPerPeer"), nil)
@@ -320,8 +320,8 @@ func checkC16(c *Ctx, r *Report) {
 		r5.guard(acc, "append dialDataReqs", writes, "!closed", edgeBool(isLoadOfField(rlT+".closed"), false), nil)
 		r5.guard(acc, "append dialDataReqs", writes, "len(dialDataReqs) < DialDataRPM", edgeCmp(func(b *ssa.BinOp) bool {
 			call, _ := strip2(b.X).(*ssa.Call)
-			return b.Op == token.GEQ && call != nil && calleeKey(call) == "builtin.len" && isLoadOfField(rlT + ".dialDataReqs")(strip2(call.Call.Args[0])) &&
-				isLoadOfField(rlT + ".DialDataRPM")(strip2(b.Y))
+			return b.Op == token.GEQ && call != nil && calleeKey(call) == "builtin.len" && isLoadOfField(rlT+".dialDataReqs")(strip2(call.Call.Args[0])) &&
+				isLoadOfField(rlT+".DialDataRPM")(strip2(b.Y))
 		}, false), nil)
 		for _, ret := range returnsOf(acc) {
 			if b, ok := constBool(retVal(ret, 0)); ok && b {
